@@ -12,6 +12,10 @@ CFG = {
             "ckey/cmouse/cpaste: the modes are established by child output scripts (DECSET/DECRST of 1,1000,1002,1003,1006,1007,1049,2004 and "
             "distractors, DECKPAM/DECKPNM, RIS; systematic singles/pairs/after-RIS/across-1049 + random scripts) fed through the real "
             "parser and Model.update, then 7 keys, 6 mouse events and both paste boundaries are forwarded; expected modes from Spec.specModes. "
+            "Round 2: text productions (grapheme clusters, caps lock / AltGr / compose texts), Ctrl x every printable ASCII key x 4 modifier sets, "
+            "cased letters of many scripts (all lower-case code points in the thorough tier) x 17 event shapes with the CasedPair hypotheses checked "
+            "on Go's tables (hyp_ok / hyp_violated:*); ppaste: whole bracketed pastes (fixed + random payloads, inner markers) injected into a real "
+            "host Vaxis, the posted events forwarded with the real Model.Update, bytes compared with the payload. "
             "Non-trivial = something is written towards the child; distinct by op line.",
     "trusted_base": ["unicode.IsLower etc. are parameters of the model (structure Uni)",
                      "bytes -> sequences is the real ansi parser (C02); a lone ESC is resolved as the escape time-out does (C08)",
@@ -19,7 +23,10 @@ CFG = {
     "level_text": "Forwarded keys/paste/mouse: Props/C13 theorems proved over the model of widgets/term/key.go, mouse.go and the "
                   "forwarding arms of Update, tied to the source by Gen/TermKeys.lean, Gen/Keys.lean, Gen/Mouse.lean and by correspondence.",
     "level_note": "Proved: key_roundtrip (table part by kernel decide over the regenerated tables, all four key-mode combinations), "
-                  "cursor_mode_selects, child_modes_conform (decset/decrst/DECKPAM/DECKPNM/RIS tables vs the standard meaning), mouse_roundtrip (all buttons of the API, all positions), mouse_gated, paste_gated. "
+                  "cursor_mode_selects, child_modes_conform (decset/decrst/DECKPAM/DECKPNM/RIS tables vs the standard meaning), mouse_roundtrip (all buttons of the API, all positions), mouse_gated, paste_gated; "
+                  "C13Ext: text_forwarded, ctrl_char_total, alt_ctrl_letter_is_xterm, shift_/alt_shift_letter_roundtrip (any script, hypotheses on the unicode tables explicit and checked at run time), "
+                  "forward_paste_items / paste_payload_intact (any payload, any interleaving of boundaries; BS excluded with a witness), mouse_legacy_total. "
+                  "Outside the round-trip domain with the reason in Spec.XtermDomain: Ctrl+Alt+char and Alt+non-ASCII (host parser cannot read xterm's form; bytes pinned). "
                   "Validated by correspondence only: the hand-transcribed bodies of encodeXterm / handleMouse / Update. "
                   "Modelled not verified: parser, unicode tables, pty write.",
     "assumptions": ["Key.Text and the strings written are valid UTF-8"],
